@@ -1,7 +1,7 @@
 """C13 — local SOCKS5 / HTTP handshakes: structural clauses H1-H6 (DESIGN.md section 11)."""
 import re
 
-from ..mir import Callee, last_seg, loc, op_const, op_int, op_place
+from ..mir import tymatch, Callee, last_seg, loc, op_const, op_int, op_place
 from .common import gates_of_value, returns_variant, err_return_reachable_only, flat_err_only
 
 EXPLANATION = (
@@ -822,7 +822,7 @@ def _check_sniffer(ctx, prog, sn, enum_path, tunnel_variants, discr_of):
                 peek_bufs |= {x for x in sb if re.match(r"^\[u8; \d+\]$", sn.local_ty(x))}
     conv_args = []
     for (blk, c, t) in sn.calls():
-        if c.method == "from" and c.trait and last_seg(c.trait) == "From" and (c.self_def or "").endswith("socks::SocksVersion"):
+        if c.method == "from" and c.trait and last_seg(c.trait) == "From" and tymatch((c.self_def or ""), "socks::SocksVersion"):
             conv_args += [op_place(a)[0] for a in t["args"] if op_place(a) is not None]
     if vers and conv_args:
         seen, cs, _ = sn.slice_back(conv_args)
@@ -872,7 +872,7 @@ def _check_relay_entry(ctx, prog, root):
 
 def _check_tables(ctx, prog):
     """H6: SocksVersion::from maps 5 -> Socks5; VERSION == 5."""
-    it = [i for i in prog.items if i["k"] == "enum" and i["path"].endswith("socks::SocksVersion")]
+    it = [i for i in prog.items if i["k"] == "enum" and tymatch(i["path"], "socks::SocksVersion")]
     if not it:
         ctx.anchor_lost("H6", "SocksVersion enum")
         return
@@ -909,7 +909,7 @@ def _check_tables(ctx, prog):
         for blk in b.rpo():
             for s in b.stmts(blk):
                 pass
-    consts = [i for i in prog.items if i["k"] == "const" and i["path"].endswith("socks5::VERSION")]
+    consts = [i for i in prog.items if i["k"] == "const" and tymatch(i["path"], "socks5::VERSION")]
     if consts:
         v = consts[0].get("int")
         ctx.ob("H6", consts[0]["path"], "socks5-version-constant", loc(consts[0]["sp"]), v in (5, "5"), f"VERSION = {v}", ordinal=False)
